@@ -419,7 +419,7 @@ func (c *Ctx) geRun() []*geVerdict {
 	// the sentences of the parser families
 	for _, f := range gxFamilies(false) {
 		switch f.name {
-		case "operator-pairs", "equal-level-chains", "prefix-postfix-call-index-against-binary", "calls-index-grouping", "nested-calls", "spacing-comments-case":
+		case "operator-pairs", "equal-level-chains", "prefix-postfix-call-index-against-binary", "calls-index-grouping", "nested-calls", "spacing-comments-case", "long-flat-and-deep-sentences":
 			// (the last one: white-space and comment tokens anywhere, keywords in any letter case - the value is that of the bare token string)
 			for _, it := range f.items {
 				if strings.Contains(strings.ToUpper(it), "LIKE") {
@@ -458,7 +458,7 @@ func (c *Ctx) geRun() []*geVerdict {
 					results[i] = r
 					continue
 				}
-				show := "‹" + it.expr + "›"
+				show := gxShowItem(it.expr)
 				noteSample("GRAM.eval/"+it.fam, show)
 				for _, inTrue := range []bool{true, false} {
 					if !strings.Contains(it.expr, " IN ") && !inTrue {
@@ -475,9 +475,9 @@ func (c *Ctx) geRun() []*geVerdict {
 					case got.kind == "panic":
 						r.bad = fmt.Sprintf("evaluating %s panics: %s", show, got.why)
 					case got.kind == "error":
-						r.bad = fmt.Sprintf("evaluating %s fails with %s after [%s]; its syntax tree evaluates as [%s]", show, got.result, strings.Join(got.trace, "; "), strings.Join(wantTrace, "; "))
+						r.bad = fmt.Sprintf("evaluating %s fails with %s after [%s]; its syntax tree evaluates as [%s]", show, got.result, gxShowSeq(got.trace, "; "), gxShowSeq(wantTrace, "; "))
 					case strings.Join(got.trace, "; ") != strings.Join(wantTrace, "; "):
-						r.bad = fmt.Sprintf("evaluating %s applies [%s]; its syntax tree, operands in written order, evaluates as [%s]", show, strings.Join(got.trace, "; "), strings.Join(wantTrace, "; "))
+						r.bad = fmt.Sprintf("evaluating %s applies [%s]; its syntax tree, operands in written order, evaluates as [%s]", show, gxShowSeq(got.trace, "; "), gxShowSeq(wantTrace, "; "))
 					case got.result != wantRes:
 						r.bad = fmt.Sprintf("evaluating %s returns %s; the value of its syntax tree is %s", show, got.result, wantRes)
 					}
@@ -487,7 +487,7 @@ func (c *Ctx) geRun() []*geVerdict {
 					// evaluating again gives the same operations and result (the program and the stack are not shared state)
 					again := h.evaluate(ls, 0, false)
 					if again.kind == "ok" && (strings.Join(again.trace, "; ") != strings.Join(wantTrace, "; ") || again.result != wantRes) || again.kind == "error" || again.kind == "panic" {
-						r.bad = fmt.Sprintf("evaluating %s a second time gives [%s] → %s %s, the first time [%s] → %s", show, strings.Join(again.trace, "; "), again.kind, again.result, strings.Join(wantTrace, "; "), wantRes)
+						r.bad = fmt.Sprintf("evaluating %s a second time gives [%s] → %s %s, the first time [%s] → %s", show, gxShowSeq(again.trace, "; "), again.kind, again.result, gxShowSeq(wantTrace, "; "), wantRes)
 					}
 					// interleaved with an evaluation under another variable set and another function table:
 					// that evaluation uses only the other set, and the first set's results are unaffected
@@ -503,11 +503,12 @@ func (c *Ctx) geRun() []*geVerdict {
 						}
 						back := h.evaluate(ls, 0, false)
 						if back.kind == "ok" && r.bad == "" && (strings.Join(back.trace, "; ") != strings.Join(wantTrace, "; ") || back.result != wantRes) {
-							r.bad = fmt.Sprintf("after an evaluation of %s under another variable set, evaluating with the first set gives [%s] → %s instead of [%s] → %s", show, strings.Join(back.trace, "; "), back.result, strings.Join(wantTrace, "; "), wantRes)
+							r.bad = fmt.Sprintf("after an evaluation of %s under another variable set, evaluating with the first set gives [%s] → %s instead of [%s] → %s", show, gxShowSeq(back.trace, "; "), back.result, gxShowSeq(wantTrace, "; "), wantRes)
 						}
 					}
 					// a failing operation ends the evaluation with its error, and the next evaluation is unaffected
-					if len(wantTrace) > 0 && r.bad == "" && i%3 == 0 {
+					// (not for the long sentences: one failing run per operation of a 130-operand chain adds nothing)
+					if len(wantTrace) > 0 && r.bad == "" && i%3 == 0 && it.fam != "long-flat-and-deep-sentences" {
 						for k := 1; k <= len(wantTrace) && r.bad == ""; k++ {
 							failed := h.evaluate(ls, k, false)
 							if failed.kind == "ok" {
@@ -520,11 +521,12 @@ func (c *Ctx) geRun() []*geVerdict {
 							}
 							after := h.evaluate(ls, 0, false)
 							if after.kind != "ok" || strings.Join(after.trace, "; ") != strings.Join(wantTrace, "; ") || after.result != wantRes {
-								r.bad = fmt.Sprintf("after an evaluation of %s that failed at operation %d, the next evaluation gives [%s] → %s %s instead of [%s] → %s: state survives between evaluations", show, k, strings.Join(after.trace, "; "), after.kind, after.result, strings.Join(wantTrace, "; "), wantRes)
+								r.bad = fmt.Sprintf("after an evaluation of %s that failed at operation %d, the next evaluation gives [%s] → %s %s instead of [%s] → %s: state survives between evaluations", show, k, gxShowSeq(after.trace, "; "), after.kind, after.result, gxShowSeq(wantTrace, "; "), wantRes)
 							}
 						}
 					}
 				}
+				r.bad = gxClip(r.bad)
 				results[i] = r
 			}
 		}(w)
